@@ -266,6 +266,13 @@ def run_case(case, R):
             for meth in ("max", "min", "sum", "mean", "prod", "all", "any"):
                 for ax in [None] + list(range(-nd, nd)):
                     judge(R, meth, f"[method](axis={ax}) on {a.tolist()}", lambda: getattr(p, meth)(axis=ax), lambda: getattr(a, meth)(axis=ax), tags + ["method"])
+                    judge(R, meth, f"[method](axis={ax}, keepdims=True) on {a.tolist()}", lambda: getattr(p, meth)(axis=ax, keepdims=True),
+                          lambda: getattr(a, meth)(axis=ax, keepdims=True), tags + ["method", "keepdims=True"])
+                judge(R, meth, f"[method]() on {a.tolist()}", lambda: getattr(p, meth)(), lambda: getattr(a, meth)(), tags + ["method", "defaults"])
+                if nd:
+                    judge(R, meth, f"[method](0) positional on {a.tolist()}", lambda: getattr(p, meth)(0), lambda: getattr(a, meth)(0), tags + ["method", "positional"])
+            for meth in ("cumsum", "round", "ravel", "flatten", "copy", "transpose", "squeeze"):
+                judge(R, meth, f"[method]() on {a.tolist()}", lambda: getattr(p, meth)(), lambda: getattr(a, meth)(), tags + ["method", "defaults"])
             judge(R, "nonzero", f" on {a.tolist()}", lambda: numpoly.nonzero(p), lambda: numpy.nonzero(a), tags, strict_kind=True) if nd else None
             judge(R, "where", f"(c) on {a.tolist()}", lambda: numpoly.where(p), lambda: numpy.where(a), tags, strict_kind=True) if nd else None
             if nd >= 1:
